@@ -30,7 +30,14 @@ import common
 MARGIN = Fr(1, 2 ** 30)       # edge slack above which `_contains` must agree (GEOS uses exact orientation predicates on
                               # exact inputs, so any positive slack would do; the margin keeps other float paths safe)
 REL = 1e-5                    # float32 results (`torch.tensor(python float)`) vs exact
-TOL = Fr(1.0e-06)             # `ShapelyBoundary.tol`, the exact value of the double
+TOL = Fr(1.0e-06)             # base of `ShapelyBoundary.tol` (exact value of the double); the class uses
+                              # tol = 1e-6 * max(1, largest |coordinate| of the polygon's bounds)  (see `bdry_tol`)
+
+
+def bdry_tol(vertices, holes=()):
+    """`ShapelyBoundary.tol` of the polygon, exactly: the rounding error of a float32 point grows with its coordinates"""
+    big = max(abs(Fr(c)) for ring in [vertices] + list(holes or []) for v in ring for c in v)
+    return TOL * max(Fr(1), Fr(float(big)))
 
 
 # ----------------------------------------------------------------------------------------------------------
@@ -122,12 +129,13 @@ def poly_measures_exact_many(polys):
     return out
 
 
-def _all_exact(queries, tol=TOL):
-    """everything the stream needs in ONE driver call: (contains, locations, boundary test, measures) per query"""
+def _all_exact(queries, tol=None):
+    """everything the stream needs in ONE driver call: (contains, locations, boundary test, measures) per query;
+    the boundary tolerance is the class's own (`bdry_tol`) unless one is given"""
     lines = []
     for v, h, ps in queries:
         pt = poly_tokens(v, h)
-        lines += [f"all {common.q(Fr(tol))} {pt} {_pts_tokens(ps)}", f"area {pt}", f"bbox {pt}", f"len {pt}", f"outline {pt}"]
+        lines += [f"all {common.q(Fr(tol) if tol is not None else bdry_tol(v, h))} {pt} {_pts_tokens(ps)}", f"area {pt}", f"bbox {pt}", f"len {pt}", f"outline {pt}"]
     rs = common.run_driver("Polygon", lines)
     cont, locs, bdry, meas = [], [], [], []
     for i, (v, h, ps) in enumerate(queries):
@@ -352,9 +360,23 @@ def make_case(rng, idx):
                 pts.append((e[0] + off, e[1]) if ax == 0 else (e[0], e[1] + off))
     far = max(max(xs) - min(xs), max(ys) - min(ys)) * 4
     pts += [(min(xs) - far, c[1]), (c[0], max(ys) + far)]
-    return dict(id=idx, kind=kind, outer=[[str(a), str(b)] for a, b in outer],
+    scale, shift = Fr(1), (Fr(0), Fr(0))
+    if rng.random() < 0.4:
+        # the same polygon at another scale and away from the origin (powers of two: every coordinate stays exact in float64)
+        scale = Fr(2) ** rng.choice([-10, -5, 5, 8])
+        shift = (Fr(rng.choice([0, 1, -3, 40])) * Fr(2) ** rng.choice([0, 5]), Fr(rng.choice([0, 2, -1, 25])) * Fr(2) ** rng.choice([0, 5]))
+        mp = lambda v: (v[0] * scale + shift[0], v[1] * scale + shift[1])
+        outer = [mp(v) for v in outer]
+        holes = [[mp(v) for v in h] for h in holes]
+        pts = [mp(v) for v in pts]
+    return dict(id=idx, kind=kind, scale=str(scale), shift=[str(shift[0]), str(shift[1])], outer=[[str(a), str(b)] for a, b in outer],
                 holes=[[[str(a), str(b)] for a, b in h] for h in holes], points=[[str(a), str(b)] for a, b in pts],
                 via_vertices=(not holes and rng.random() < 0.7))
+
+
+def _f32(x):
+    import numpy as np
+    return Fr(float(np.float32(float(x))))
 
 
 def _fr_ring(r):
@@ -415,6 +437,7 @@ def run_stream(ctx, rep, cases=None):
         where = dict(stream="polygon", polygon_case=cs)
         desc = f"ShapelyPolygon({cs['kind']}, {len(outer)} vertices, {len(holes)} hole(s))"
         rep.count("polygon:kind:" + cs["kind"])
+        rep.count("polygon:scale:" + cs.get("scale", "1") + (":shifted" if cs.get("shift", ["0", "0"]) != ["0", "0"] else ""))
         rep.count("polygon:holes:%d" % len(holes))
         rep.count("polygon:exterior-given:" + ("ccw" if _shoelace2(outer) > 0 else "cw"))
         nontrivial = bool(holes) or cs["kind"] not in ("convex",)
@@ -458,41 +481,44 @@ def run_stream(ctx, rep, cases=None):
                 rep.count("polygon:contains:within-margin(skipped)")
             # boundary test
             acc, _ = bd[i]
+            tolp = bdry_tol(outer, holes)
             if d2 == 0:
                 rep.count("polygon:bdry:exact-edge-point")
                 if not res["onb"][i]:
                     rep.fail(f"{desc}: boundary._contains rejects {pw['point_float']}, a point exactly on an edge "
                              f"({'of a hole' if py_bdry_dist2(outer, [], p) != 0 else 'of the exterior'})", pw)
-            elif d2 > (2 * TOL) ** 2:
+            elif d2 > (2 * tolp) ** 2:
                 rep.count("polygon:bdry:far")
                 if res["onb"][i]:
                     rep.fail(f"{desc}: boundary._contains accepts {pw['point_float']} at distance {math.sqrt(float(d2)):.3g} "
-                             f"from the nearest edge (tolerance 1e-6)", pw)
-            elif d2 < (TOL / 2) ** 2:
+                             f"from the nearest edge (tolerance {float(tolp):.3g} = 1e-6 * max(1, largest |coordinate|))", pw)
+            elif d2 < (tolp / 2) ** 2:
                 rep.count("polygon:bdry:near")
                 if not res["onb"][i]:
                     rep.fail(f"{desc}: boundary._contains rejects {pw['point_float']} at distance {math.sqrt(float(d2)):.3g} "
-                             f"from the nearest edge (tolerance 1e-6)", pw)
+                             f"from the nearest edge (tolerance {float(tolp):.3g} = 1e-6 * max(1, largest |coordinate|))", pw)
             else:
                 rep.count("polygon:bdry:within-band(skipped)")
-            if acc != (d2 <= TOL * TOL):
-                rep.disagree("TPV.Poly.polyBdryContains vs dist2 <= tol^2", pw, d2 <= TOL * TOL, acc)
+            if acc != (d2 <= tolp * tolp):
+                rep.disagree("TPV.Poly.polyBdryContains vs dist2 <= tol^2", pw, d2 <= tolp * tolp, acc)
         # measures
         area = ms["area"]
         if area != abs(_shoelace2(outer)) / 2 - sum(abs(_shoelace2(h)) / 2 for h in holes):
             rep.disagree("TPV.Poly.polyArea vs the shoelace oracle of harness/polygon.py", where, None, str(area))
-        if abs(res["area"] - float(area)) > REL * max(1.0, float(area)):
+        if abs(res["area"] - float(area)) > REL * float(area):
             rep.fail(f"{desc}: volume() = {res['area']!r}, the area (exterior minus holes, exact) is {float(area)!r}", where)
         plen = sum(math.hypot(float(b[0] - a[0]), float(b[1] - a[1])) for r in [outer] + holes for a, b in zip(r, r[1:] + r[:1]))
         if abs(ms["length"] - plen) > 1e-9 * max(1.0, plen):
             rep.disagree("TPV.Poly.polyBdryLen (Float) vs math.hypot", where, plen, ms["length"])
-        if abs(res["length"] - ms["length"]) > REL * max(1.0, ms["length"]):
+        if abs(res["length"] - ms["length"]) > REL * ms["length"]:
             rep.fail(f"{desc}: boundary.volume() = {res['length']!r}, the total edge length (exterior and holes) is {ms['length']!r}", where)
-        if [Fr(v) for v in res["bbox"]] != list(ms["bbox"]):
+        # bounding_box() and outline() are float32 tensors: the exact values rounded to the nearest float32 (exact for the
+        # unscaled dyadic polygons, rounded for the scaled / shifted ones)
+        if [Fr(v) for v in res["bbox"]] != [_f32(v) for v in ms["bbox"]]:
             rep.fail(f"{desc}: bounding_box() = {res['bbox']}, the extreme vertex coordinates (xmin, xmax, ymin, ymax) are "
                      f"{[float(v) for v in ms['bbox']]}", where)
         # outline: same rings, same direction, any start vertex
-        mo = [_canon_cycle(r) for r in ms["outline"]]
+        mo = [_canon_cycle([(_f32(a), _f32(b)) for a, b in r]) for r in ms["outline"]]
         io = [_canon_cycle([(Fr(a), Fr(b)) for a, b in r]) for r in res["outline"]]
         if mo != io:
             if sorted(map(sorted, mo)) == sorted(map(sorted, io)) and (_shoelace2(io[0]) <= 0 or any(_shoelace2(r) >= 0 for r in io[1:])):
